@@ -111,6 +111,20 @@ class Gen:
                         if c[0] is None:
                             c[0] = rng.randrange(2)
                     return int("".join(str(c[0]) for c in cs) or "0", 2)
+                # boundary first: with probability 0.35 the two sides are made EQUAL (le/ge accept, lt/gt refuse there)
+                def cells_of(x):
+                    return None if x[0] == "const" else varcells[x[1]]
+                ca, cb = cells_of(t[2]), cells_of(t[3])
+                if rng.random() < 0.35:
+                    if ca and cb and len(ca) == len(cb) and all(c[0] is None for c in ca + cb):
+                        for x, y in zip(ca, cb):
+                            x[0] = y[0] = rng.randrange(2)
+                    elif ca and cb is None and t[3][0] == "const" and all(c[0] is None for c in ca) and 0 <= t[3][1] < (1 << len(ca)):
+                        for x, bit in zip(ca, format(t[3][1], f"0{len(ca)}b")):
+                            x[0] = int(bit)
+                    elif cb and ca is None and t[2][0] == "const" and all(c[0] is None for c in cb) and 0 <= t[2][1] < (1 << len(cb)):
+                        for x, bit in zip(cb, format(t[2][1], f"0{len(cb)}b")):
+                            x[0] = int(bit)
                 a, b = num(t[2]), num(t[3])
                 c = {"lt": a < b, "le": a <= b, "gt": a > b, "ge": a >= b}[t[1]]
                 t = t[5] if c else t[4]
